@@ -625,9 +625,13 @@ LEVEL_TEXT = ("Proved in Coq for all block forests (any nesting): the simple vis
               "(fold_compositional, by a commutation lemma over duplicate-free child maps) - and nothing but the result so far is carried over "
               "(fold_continues); re-opening a namespace appends to the same scope (namespace_reopen); namespace a::b { } equals the nested "
               "blocks (nested_ns_equiv); extern blocks are transparent (extern_transparent). Tie: recorded real callback streams folded by the "
-              "extracted model vs the tree the real visitor built. The parser-side half (no specifier, template header, doc comment or access "
-              "level leaks between siblings) is decided by the pair search: corpus x corpus and generated x generated in five contexts against "
-              "an independent merge.")
-LEVEL_NOTE = ("Trusted: Coq kernel, extraction, driver, harness. Parser-side independence of siblings: search only. inline/doxygen of a re-opened "
+              "extracted model vs the tree the real visitor built. On the parser side, for the modelled statement kinds: a translation unit "
+              "written as any tree of namespaces, linkage blocks, class definitions, forward declarations, using statements, enum "
+              "definitions and declaration statements reads back as written, and the unit A B reads as the items of A followed by the "
+              "items of B (translation_unit_reads_back_partial, translation_units_concatenate_partial over Parse/ClassDef.v, whose "
+              "extracted loop runs beside parse_string on generated, mutated and test-suite inputs). For everything outside those models "
+              "(doc comments, template headers on functions, attributes ...) the parser-side half is decided by the pair search: corpus x "
+              "corpus and generated x generated in five contexts against an independent merge.")
+LEVEL_NOTE = ("Trusted: Coq kernel, extraction, driver, harness. Parser-side independence of siblings: proved for the hand-written statement-loop model (tied by differential runs), searched beyond it. inline/doxygen of a re-opened "
               "namespace are overwritten by the later block (as coded) and handled that way by the oracle.")
-TECHNIQUE = "Coq proof of fold compositionality (merge commutation over nested forests) + fold differential on recorded streams + pair-concatenation search"
+TECHNIQUE = "Coq proof of fold compositionality (merge commutation over nested forests) and of the read-back / concatenation of whole translation units over a recursive statement-loop model + differentials (recorded streams, whole units) + pair-concatenation search"
